@@ -133,14 +133,18 @@ pub const JTYPES: [&str; 12] = ["order", "update", "id", "side", "tif", "peg", "
 
 fn rsnap(r: &mut Rng, consistent: bool) -> String {
     let n = r.below(4);
+    let huge = r.chance(1, 8);
     let mut v: Vec<Order> = Vec::new();
     for i in 0..n {
         let o = rorder(r, Some(10 + i * 3));
         let s = show_order(&o);
         let mut f: Vec<String> = s.split('|').map(|x| x.to_string()).collect();
         f[1] = show_id(&crate::gens::pool_id(100 + i));
-        f[3] = r.below(1000).to_string();
-        if f[0] == "I" || f[0] == "R" { f[7] = r.below(1000).to_string(); }
+        // quantities: mostly small; one value in eight is made of 64-bit giants whose sums pass 2^64 (a live
+        // level's counters wrap, so must whatever is rebuilt from its JSON)
+        let q = |r: &mut Rng| if huge { u64::MAX - r.below(1000) } else { r.below(1000) };
+        f[3] = q(r).to_string();
+        if f[0] == "I" || f[0] == "R" { f[7] = q(r).to_string(); }
         v.push(parse_order(&f.join("|")).unwrap());
     }
     // a snapshot value is any vector of orders: half of the time not in timestamp order (a codec must
@@ -151,7 +155,7 @@ fn rsnap(r: &mut Rng, consistent: bool) -> String {
             v.swap(i, j);
         }
     }
-    let (vis, hid): (u64, u64) = v.iter().fold((0, 0), |a, o| (a.0 + o.visible_quantity(), a.1 + o.hidden_quantity()));
+    let (vis, hid): (u64, u64) = v.iter().fold((0u64, 0u64), |a, o| (a.0.wrapping_add(o.visible_quantity()), a.1.wrapping_add(o.hidden_quantity())));
     if consistent {
         format!("{},{},{},{};{}", r.below(100000), vis, hid, v.len(), show_list(&v, show_order))
     } else {
@@ -240,6 +244,14 @@ pub fn gen_snap(seed: u64, nlevels: u64, subs_per_level: u64, exhaustive: bool, 
         for _ in 0..subs_per_level / 4 {
             out.push(format!("pkg.fault sub2 {} {} {} {}", r.below(n), r.below(128), r.below(n), r.below(128)));
         }
+        // systematic structural mutations: every node x {delete, null, boundary numbers, strings, empty};
+        // and ALL pairs of them among the nodes of depth <= 2 (version, checksum, the snapshot's own fields)
+        header(out, &mut case);
+        let n1 = sx_list(&text, 9).len();
+        for i in 0..n1 { out.push(format!("pkg.fault sx {i}")); }
+        header(out, &mut case);
+        let n2 = sx_list(&text, 2).len();
+        for i in 0..n2 { for j in 0..n2 + 9 { out.push(format!("pkg.fault sx2 {i} {j}")); } }
     }
 }
 
@@ -247,10 +259,69 @@ pub fn gen_snap(seed: u64, nlevels: u64, subs_per_level: u64, exhaustive: bool, 
 pub fn leveldata_expect(v: &str) -> String {
     let Some(s) = parse_snap(v) else { return String::new() };
     let mut os: Vec<Order> = s.orders.iter().map(|a| **a).collect();
-    let vis: u64 = os.iter().map(|o| o.visible_quantity()).sum();
-    let hid: u64 = os.iter().map(|o| o.hidden_quantity()).sum();
+    let vis: u64 = os.iter().fold(0u64, |a, o| a.wrapping_add(o.visible_quantity()));
+    let hid: u64 = os.iter().fold(0u64, |a, o| a.wrapping_add(o.hidden_quantity()));
     canon_sort(&mut os);
     format!("{},{},{},{};{}", s.price, vis, hid, os.len(), show_list(&os, show_order))
+}
+
+
+/// structural mutations of a JSON document, enumerated deterministically: every node (by JSON pointer)
+/// x {delete, null, boundary numbers, other strings, empty container}
+#[derive(Clone, Debug)]
+pub enum SMut { Delete, Null, Num(usize), Str(usize), Empty }
+
+const SX_NUMS: [&str; 9] = ["0", "1", "9007199254740993", "9223372036854775808", "18446744073709551615", "1152921504606846976", "-1", "1e30", "0.5"];
+const SX_STRS: [&str; 3] = ["", "x", "BUY"];
+
+fn sx_nodes(v: &serde_json::Value, path: &str, depth: usize, maxdepth: usize, out: &mut Vec<(String, SMut)>) {
+    use serde_json::Value;
+    if !path.is_empty() {
+        out.push((path.to_string(), SMut::Delete));
+        if !v.is_null() { out.push((path.to_string(), SMut::Null)); }
+        match v {
+            Value::Number(_) => for i in 0..SX_NUMS.len() { out.push((path.to_string(), SMut::Num(i))); },
+            Value::String(_) => for i in 0..SX_STRS.len() { out.push((path.to_string(), SMut::Str(i))); },
+            Value::Array(a) if !a.is_empty() => out.push((path.to_string(), SMut::Empty)),
+            Value::Object(o) if !o.is_empty() => out.push((path.to_string(), SMut::Empty)),
+            _ => {}
+        }
+    }
+    if depth >= maxdepth { return; }
+    match v {
+        Value::Array(a) => for (i, x) in a.iter().enumerate() { sx_nodes(x, &format!("{path}/{i}"), depth + 1, maxdepth, out); },
+        Value::Object(o) => for (k, x) in o.iter() { sx_nodes(x, &format!("{path}/{k}"), depth + 1, maxdepth, out); },
+        _ => {}
+    }
+}
+
+pub fn sx_list(text: &str, maxdepth: usize) -> Vec<(String, SMut)> {
+    let mut out = Vec::new();
+    if let Ok(v) = serde_json::from_str::<serde_json::Value>(text) { sx_nodes(&v, "", 0, maxdepth, &mut out); }
+    out
+}
+
+fn sx_apply(v: &mut serde_json::Value, path: &str, m: &SMut) -> Option<()> {
+    use serde_json::Value;
+    match m {
+        SMut::Delete => {
+            let cut = path.rfind('/')?;
+            let (parent, key) = (&path[..cut], &path[cut + 1..]);
+            match v.pointer_mut(parent)? {
+                Value::Object(o) => { o.remove(key)?; }
+                Value::Array(a) => { let i: usize = key.parse().ok()?; if i < a.len() { a.remove(i); } else { return None; } }
+                _ => return None,
+            }
+        }
+        SMut::Null => *v.pointer_mut(path)? = Value::Null,
+        SMut::Num(i) => *v.pointer_mut(path)? = serde_json::from_str(SX_NUMS[*i]).ok()?,
+        SMut::Str(i) => *v.pointer_mut(path)? = Value::String(SX_STRS[*i].to_string()),
+        SMut::Empty => {
+            let n = v.pointer_mut(path)?;
+            *n = if n.is_array() { Value::Array(vec![]) } else { Value::Object(Default::default()) };
+        }
+    }
+    Some(())
 }
 
 /// applies one fault to the serialized package; `None` when it does not apply
@@ -288,6 +359,20 @@ pub fn apply_fault(text: &str, kind: &str, args: &[&str]) -> Option<Vec<u8>> {
             let mut f = b.to_vec();
             f.insert(off.min(n), v as u8);
             Some(f)
+        }
+        "sx" | "sx2" => {
+            // the i-th structural mutation (and then the j-th of the depth-2 list of the result)
+            let mut val: serde_json::Value = serde_json::from_str(text).ok()?;
+            let l = sx_list(text, if kind == "sx" { 9 } else { 2 });
+            let (path, m) = l.get(*a.first()?)?.clone();
+            sx_apply(&mut val, &path, &m)?;
+            if kind == "sx2" {
+                let t2 = serde_json::to_string(&val).ok()?;
+                let l2 = sx_list(&t2, 2);
+                let (p2, m2) = l2.get(*a.get(1)?)?.clone();
+                sx_apply(&mut val, &p2, &m2)?;
+            }
+            Some(serde_json::to_string(&val).ok()?.into_bytes())
         }
         "st" => {
             let what = args.first()?;
